@@ -156,6 +156,15 @@ FillRefines(s) ==
         /\ MachFFill(s, d, IsNull) = DefFFill(s, d, IsNull) /\ MachBFill(s, d, IsNull) = DefBFill(s, d, IsNull)
         /\ MachFFill(s, d, IsZero) = DefFFill(s, d, IsZero) /\ MachBFill(s, d, IsZero) = DefBFill(s, d, IsZero)
 
+\* the machine's output obeys the closure recurrence f[i] = s[i] if kept, else f[i-1] (f[0] = the default) - the
+\* recurrence FillProof.tla starts from when it proves, for a series of ANY length, that the closure computes the
+\* positional definition
+FFillIsClosure(s) ==
+    \A d \in {NULL, 7} :
+        LET f == MachFFill(s, d, IsNull) IN
+        /\ Len(f) = Len(s)
+        /\ \A i \in 1..Len(s) : f[i] = IF s[i] # NULL THEN s[i] ELSE (IF i = 1 THEN d ELSE f[i - 1])
+
 \* ---- sorted-unique ---------------------------------------------------------------------
 
 \* inputs of the operation: equal values adjacent, nulls in one block at the head or the tail
